@@ -236,7 +236,7 @@ class Scratch:
             del sys.modules[k]
 
 
-LAYOUTS = ["oneline", "multiline", "keyword", "comments", "neighbours", "nested", "description"]
+LAYOUTS = ["oneline", "multiline", "keyword", "comments", "neighbours", "nested", "description", "in_init"]
 
 
 def self_expr(expr_src, fields):
@@ -269,7 +269,7 @@ def module_source(cases, glob_src):
         params = c.get("params", ARGS)
         if kind == "invariant":
             lam = "lambda self: %s" % c["expr"]
-            if layout in ("neighbours", "nested"):
+            if layout in ("neighbours", "nested", "in_init"):
                 layout = "oneline"
         elif c.get("named"):
             # the condition is a named function: the message shows its name, the description and the arguments
@@ -303,6 +303,16 @@ def module_source(cases, glob_src):
             lines.append(ind + "@functools.lru_cache(maxsize=None) if False else (lambda f: f)")
             lines.append(ind + "@%s(%s%s)" % (deco, lam, extra))
             lines.append(ind + "@icontract.ensure(lambda result: True)")
+        elif layout == "in_init":
+            # the contract is declared inside a constructor (a callback validated by the object that owns it)
+            lines.append(ind + "class Maker_%d:" % i)
+            lines.append(ind + "    def __init__(self):")
+            lines.append(ind + "        @%s(%s%s)" % (deco, lam, extra))
+            lines.append(ind + "        def f_%d(%s):" % (i, ", ".join(c.get("fparams", params))))
+            lines.append(ind + "            return 1")
+            lines.append(ind + "        self.f = f_%d" % i)
+            lines.append(ind + "fs[%d] = Maker_%d().f" % (i, i))
+            continue
         elif layout == "nested":
             lines.append(ind + "class Holder_%d:" % i)
             lines.append(ind + "    @staticmethod")
@@ -439,6 +449,8 @@ def special_value(v):
     if v == "BUILTIN_ALL":
         import builtins
         return builtins.all
+    if v.startswith("RAISER:"):
+        return _raiser(v.split(":")[1])
     if v == "NONEFUNC":
         return _returns_none
     if v == "METHDESC":
@@ -488,6 +500,27 @@ _A_LIST = [1, 2, 3]
 
 def _returns_none(*args):
     return None
+
+
+class _CustomFailure(Exception):
+    pass
+
+
+_RAISERS = {}
+
+
+def _raiser(kind):
+    """a helper that always fails with the given kind of exception (conditions only reach it in parts Python skips)"""
+    if kind not in _RAISERS:
+        import icontract as _ic
+        cls = {"custom": _CustomFailure, "assertion": AssertionError, "oserror": OSError, "stopiteration": StopIteration,
+               "violation": _ic.ViolationError, "keyerror": KeyError, "zerodivision": ZeroDivisionError}[kind]
+
+        def helper(*args):
+            raise cls("helper failed")
+        helper.__name__ = "helper_" + kind
+        _RAISERS[kind] = helper
+    return _RAISERS[kind]
 
 
 
@@ -626,7 +659,7 @@ def _call(f, env, variant, params):
     return f(**dict((k, env[k]) for k in order if k in env))
 
 
-DEFAULT_GLOB_SRC = "GL = 7\ny = 1000\ncl = 77"
+DEFAULT_GLOB_SRC = "GL = 7\ny = 1000\ncl = 77\nformat = 1234"      # (`format`: a module-level variable named like a built-in)
 
 
 def full_source(cases, glob_src=DEFAULT_GLOB_SRC):
